@@ -100,7 +100,10 @@ REFERENCE = {
     "U8STRING_LITERAL": (_string("u8", STRICT_ESC), _string("u8", STRING_LENIENT_ESC)),
     "U16STRING_LITERAL": (_string("u", STRICT_ESC), _string("u", STRING_LENIENT_ESC)),
     "U32STRING_LITERAL": (_string("U", STRICT_ESC), _string("U", STRING_LENIENT_ESC)),
-    "ID": (R.seq(nondigit, R.star(R.alt(nondigit, digit))), R.seq(R.cls("a-zA-Z_$"), R.star(R.cls("0-9a-zA-Z_$")))),
+    # C99 6.4.2.1: identifier-nondigit is a nondigit or a universal character name
+    "ID": ({"plain": R.seq(nondigit, R.star(R.alt(nondigit, digit))),
+            "ucn": R.seq(R.star(R.alt(nondigit)), STRICT_UCN, R.star(R.alt(nondigit, digit, STRICT_UCN)))},
+           R.seq(R.cls("a-zA-Z_$"), R.star(R.cls("0-9a-zA-Z_$")))),
 }
 
 def strict_parts(strict):
